@@ -326,7 +326,7 @@ Proof. intros ->. rewrite skipn_app, Nat.sub_diag, skipn_all. reflexivity. Qed.
 Lemma rotate_left_app {A} (x y : list A) n : n = length x -> rotate_left (x ++ y) n = y ++ x.
 Proof. intros H. unfold rotate_left. rewrite skipn_app_exact, firstn_app_exact by exact H. reflexivity. Qed.
 
-Theorem split_off_code_spec l a b : a <= b <= length l ->
+Theorem split_off_code_spec {A} (l : list A) a b : a <= b <= length l ->
   split_off_code l a b = (firstn a l ++ skipn b l, firstn (b - a) (skipn a l)).
 Proof.
   intros [H1 H2]. unfold split_off_code.
